@@ -136,8 +136,8 @@ def r3(ctx, rep):
     en = syn.fn("pq::gen_query::ensure_names", crate="prqlc") if syn.find_fns("pq::gen_query::ensure_names", crate="prqlc") else None
     if en is None:
         raise AnchorMissing("pq::gen_query::ensure_names")
-    pats = " ".join(show(a["pat"]) for m in matches_of(en["body"]) for a in m["arms"])
-    ok = "Sort" in pats and "ensure_column_name" in show_stmts_deep(en["body"])
+    pats = " ".join(n["p"] for n in walk(en["body"]) if n.get("k") in ("p_ts", "p_path", "p_struct"))
+    ok = "rq::Transform::Sort" in pats and "pq::SqlTransform::Sort" in pats and "ctx.ensure_column_name(r.column)" in show_stmts_deep(en["body"])
     rep.check(ok, "sort-columns-named", "columns used in a Sort must get a name (ORDER BY refers to them by name after the projection)", file=en["file"], line=en["l"], fn=en["path"])
 
 
@@ -157,7 +157,12 @@ def r4(ctx, rep):
     clears = [i for i, s in enumerate(seq) if s == "self.sort.clear()"]
     ok = bool(i_fold) and any(c < i_fold[0] for c in clears) and any(c > i_fold[0] for c in clears)
     rep.check(ok, "group-resets", "the sort must be cleared before the group's pipeline is folded (the group starts unordered) and after it (group resets the order)", file=fl["file"], line=g["l"], fn=fl["path"])
-    ok = any("self.sort_undone = true" in show_stmts(n["t"]) and "fields.is_empty()" in show(n["c"], maxdepth=10) for n in walk(g["body"]) if n.get("k") == "if")
+    ok = False
+    for n in walk(g["body"]):
+        if n.get("k") == "if" and "self.sort_undone = true" in show_stmts(n["t"]):
+            c = n["c"]
+            if c.get("k") == "un" and c["op"] == "!" and c["e"].get("k") == "macro" and c["e"]["n"] == "matches" and show(c["e"]["a"][0]) == "by.kind":
+                ok = "Tuple" in show(c["e"]["pat"]) and show(c["e"].get("guard")) == "fields.is_empty()"
     rep.check(ok, "sort-undone", "sort_undone may be set only for a group with a non-empty key (an empty `group {}` keeps the sort)", file=fl["file"], line=g["l"], fn=fl["path"])
     rep.check(any(s == "self.sort_undone = sort_undone" for s in seq), "sort-undone-restored", "sort_undone must be restored after the group", file=fl["file"], line=g["l"], fn=fl["path"])
     loc = [n for n in walk(fl["body"]) if n.get("k") == "local" and show(n["pat"]) == "sort" and n.get("init", {}).get("k") == "if"]
@@ -182,9 +187,11 @@ def r5(ctx, rep):
     syn = ctx.syn
     f = syn.fn("gen_query::translate_select_pipeline", crate="prqlc")
     locs = {}
+    all_locs = []
     for st in f["body"]["s"]:
         if st.get("k") == "local":
-            locs[show(st["pat"])] = st.get("init")
+            locs.setdefault(show(st["pat"]), st.get("init"))   # first definition
+            all_locs.append((show(st["pat"]), st.get("init")))
 
     def closure_linear(expr, var):
         """`x.map(|s| <body>)` -> linear form of body in terms of the closure parameter"""
@@ -206,7 +213,7 @@ def r5(ctx, rep):
               "consecutive takes in one SELECT must be composed by range_of_ranges", file=f["file"], line=f["l"], fn=f["path"])
     # ORDER BY uses the LAST sort of the pipeline
     ob = locs.get("order_by")
-    rep.check(any(show(v, maxdepth=4).startswith("order_by.last()") for k, v in locs.items() if "order_by" in k and v is not None), "last-sort-wins",
+    rep.check(any(k == "order_by" and v is not None and show(v, maxdepth=5).startswith("order_by.last().map(") for k, v in all_locs), "last-sort-wins",
               "ORDER BY must be the last Sort of the atomic pipeline", file=f["file"], line=f["l"], fn=f["path"])
     g = syn.fn("gen_expr::range_of_ranges", crate="prqlc")
     asg = {}
